@@ -219,8 +219,9 @@ func c05Property(t *rapid.T) {
 			s.dir = vk.Scratch("c05-" + name + "-")
 			s.cfg.Factory = storekit.FileFactory(s.dir, false, id)
 		}
+		s.cfg.Settings = map[string]string{}
 		if rapid.IntRange(0, 3).Draw(t, name+"-chunk") == 0 {
-			s.cfg.Settings = map[string]string{"ResendRequestChunkSize": strconv.Itoa(rapid.IntRange(1, 4).Draw(t, name+"-chunksize"))}
+			s.cfg.Settings["ResendRequestChunkSize"] = strconv.Itoa(rapid.IntRange(1, 4).Draw(t, name+"-chunksize"))
 		}
 		return s
 	}
